@@ -5,6 +5,7 @@ import (
 	mrand "math/rand/v2"
 	"strings"
 	"time"
+	"verifharness/refverify"
 
 	"github.com/gmrtd/gmrtd/document"
 	"github.com/gmrtd/gmrtd/passiveauth"
@@ -58,6 +59,7 @@ type c09Profile struct {
 	digestNull       bool
 	cardSecurity     bool
 	country          int
+	state            [2]string // when set: issuing state (alpha-3) and certificate country (alpha-2) instead of c09Countries[country]
 
 	// structural BER dimension (c09_ber.go): which constructed levels of the EF.SOD
 	// SignedData use the indefinite form, instead of the random subset below a forced
@@ -137,6 +139,9 @@ type c09Doc struct {
 // c09Build issues the document; it returns the library Document and the trust store.
 func c09Build(k *fw.K, r *mrand.Rand, p c09Profile) *c09Doc {
 	cc := c09Countries[p.country]
+	if p.state[0] != "" {
+		cc = p.state
+	}
 	cscaName := issuer.Name{{OID: issuer.OIDCountry, Value: cc[1]}, {OID: issuer.OIDOrg, Value: "Ministry of Interior", Tag: 0x0C}, {OID: issuer.OIDOrgUnit, Value: "Travel Documents", Tag: 0x13}, {OID: issuer.OIDCN, Value: "CSCA " + cc[0], Tag: 0x0C}}
 	o := issuer.PKIOpts{Country: cc[1], CSCAKey: c09Key(r, p.cscaKind, p.cscaExplicit), DSKey: c09Key(r, p.dsKind, p.dsExplicit), CSCAPSS: p.cscaPSS, DSPSS: p.dsPSS, CertHash: p.certHash, CSCAName: cscaName}
 	o.DSName = issuer.SimpleName(cc[1], "Ministry of Interior", "DS 7")
@@ -353,6 +358,38 @@ func c09Case(k *fw.K, i int) {
 	}
 }
 
+// c09StateCase: one genuine document (P-256 / SHA-256 / DER, the cheapest profile) for every
+// ISO 3166-1 country as issuing state, its CSCA and document signer carrying the matching
+// alpha-2 code - the country dimension of "a correctly issued document is reported as
+// passively authenticated" (the table is refverify's own, written from the standard).
+func c09StateCase(k *fw.K, i int) {
+	codes := refverify.ISOAlpha3Codes()
+	a3 := codes[i%len(codes)]
+	a2, ok := refverify.StateAlpha2(a3)
+	if !ok {
+		fw.Bug("reference table has no alpha-2 for %s", a3)
+	}
+	r := k.RNG
+	p := c09Profile{cscaKind: 4, dsKind: 4, digest: issuer.SHA256, certHash: issuer.SHA256, bySKI: i%2 == 0, state: [2]string{a3, a2}}
+	for j, cv := range ecref.All() {
+		if cv.Name == "P-256" || cv.Name == "secp256r1" || cv.Name == "prime256v1" {
+			p.cscaKind, p.dsKind = 3+j, 3+j
+		}
+	}
+	k.Nontrivial("state|" + a3)
+	d := c09Build(k, r, p)
+	if d == nil {
+		return
+	}
+	k.Count("state_documents")
+	res, err := passiveauth.PassiveAuth(d.doc, trustPool(d.trust))
+	if err != nil || res == nil || !res.Success {
+		k.Violation("pa:genuine-rejected:issuing-state:"+a3, fmt.Sprintf("passive authentication fails on a correctly issued document of issuing state %s (certificates C=%s): %v", a3, a2, err), map[string]any{"state": a3, "country": a2, "sod": hexCap(d.sod, 3000)})
+		return
+	}
+	k.Count("state_accepted")
+}
+
 // c09Why attaches a short cause class so that distinct defects get distinct keys.
 func c09Why(p c09Profile, err error) string {
 	if err == nil {
@@ -374,6 +411,7 @@ func runC09(c *fw.Ctx) {
 	_ = time.Now
 	n := c.Pick(392, 40768)
 	c.Cases(n, func(i int) string { return fmt.Sprintf("doc|i=%d", i) }, func(i int, k *fw.K) { c09Case(k, i) })
+
 	// which constructed levels of the EF.SOD use the indefinite form (c09_ber.go)
 	plan := c09BerPlan(c)
 	c.Cases(len(plan), func(i int) string {
@@ -387,4 +425,7 @@ func runC09(c *fw.Ctx) {
 	// in another order in the signer identifier, next to further embedded certificates (c09_names.go)
 	nn := c.Pick(280, 8400)
 	c.Cases(nn, func(i int) string { return fmt.Sprintf("names|i=%d %s", i, c09NamePlanOf(i)) }, func(i int, k *fw.K) { c09NamesCase(k, i) })
+	// every ISO 3166-1 country as issuing state (cheapest profile)
+	states := refverify.ISOAlpha3Codes()
+	c.Cases(len(states), func(i int) string { return fmt.Sprintf("state|i=%d %s", i, states[i]) }, func(i int, k *fw.K) { c09StateCase(k, i) })
 }
